@@ -95,4 +95,27 @@ Definition tr_c16_spurious : list event :=
    ERxErr 2; EDie 2 KTransport; EConnClose 2; ETerm 4 true; EClosed] ++
   tc_open 5 1 true [Publish false tc_m1 1; Publish false tc_m1b 2].
 
+(* window 1, one unacknowledged delivery, the dequeuer waits for a slot and times out: legitimate *)
+Definition tr_sl_full : list event := tr_w1_a ++ [EDie 3 KClient; EConnClose 3].
+(* the PUBACK has been received but its slot is not back yet when the timer fires: legitimate *)
+Definition tr_sl_race : list event := tr_w1_a ++ [ERx 2 (Puback 1); EDie 3 KClient; EConnClose 3].
+(* the delete of the acknowledged packet fails: the slot is gone with the dying connection *)
+Definition tr_sl_delfail : list event :=
+  tr_w1_a ++ [ERx 2 (Puback 1); EDelete 2 Outgoing 1 false; EDie 3 KClient; EConnClose 3].
+(* a lost slot: window 2, one unacknowledged delivery, yet the dequeuer times out *)
+Definition tr_sl_lost : list event :=
+  tc_open 2 2 false [] ++
+  [EDeqCall 3; EDeqRet 3 (QMsg tc_m1 false); ENextId 3 1; ESave 3 Outgoing (Publish false tc_m1 1) true;
+   ETx 3 (Publish false tc_m1 1) true true; EDie 3 KClient].
+(* slots lost across a reconnect: window 2, one message re-sent on the resumed connection, acknowledged,
+   one delivery, then a timeout although only one message is in flight *)
+Definition tr_sl_lost_resume : list event :=
+  tc_open 2 2 false [] ++
+  [EDeqCall 3; EDeqRet 3 (QMsg tc_m1 false); ENextId 3 1; ESave 3 Outgoing (Publish false tc_m1 1) true;
+   ETx 3 (Publish false tc_m1 1) true true;
+   ERxErr 2; EDie 2 KTransport; EConnClose 2; ETerm 4 true; EClosed] ++
+  tc_open 5 2 true [Publish false tc_m1 1] ++
+  [EDeqCall 6; EDeqRet 6 (QMsg tc_m1b false); ENextId 6 2; ESave 6 Outgoing (Publish false tc_m1b 2) true;
+   ETx 6 (Publish false tc_m1b 2) true true; ERx 5 (Puback 1); EDelete 5 Outgoing 1 true; EDie 6 KClient].
+
 Definition tc_accepted (es : list event) : bool := match bc_run es with Some _ => true | None => false end.
